@@ -383,6 +383,49 @@ static void gen_seed(const Seed& sd, const std::vector<Seed>& all, const std::ve
   }
 }
 
+// Structure-aware degenerate files: arbitrary header counts with a CONSISTENT body (every block has the
+// size its header declares, footer in place), so that the decoder is driven past the count checks.
+static std::string degenerate_block(int tl, char vbyte, size_t timecnt, size_t typecnt, size_t charcnt, size_t leapcnt, size_t isstd, size_t isut, int idx_mode) {
+  std::string o = "TZif";
+  o.push_back(vbyte);
+  o.append(15, '\0');
+  auto be4 = [&](unsigned long long v) { for (int i = 3; i >= 0; --i) o.push_back(static_cast<char>((v >> (8 * i)) & 0xff)); };
+  be4(isut); be4(isstd); be4(leapcnt); be4(timecnt); be4(typecnt); be4(charcnt);
+  for (size_t i = 0; i < timecnt; ++i) { long long t = -1000000000LL + static_cast<long long>(i) * 40000000LL; for (int k = tl - 1; k >= 0; --k) o.push_back(static_cast<char>((static_cast<unsigned long long>(t) >> (8 * k)) & 0xff)); }
+  for (size_t i = 0; i < timecnt; ++i) o.push_back(static_cast<char>(idx_mode == 0 ? 0 : idx_mode == 1 ? (typecnt ? (i % typecnt) : 0) : (typecnt ? typecnt - 1 : 0)));
+  for (size_t i = 0; i < typecnt; ++i) { unsigned long long off = static_cast<unsigned long long>(static_cast<long long>((i % 2) ? 3600 : -18000)); for (int k = 3; k >= 0; --k) o.push_back(static_cast<char>((off >> (8 * k)) & 0xff)); o.push_back(static_cast<char>(i % 2)); o.push_back(static_cast<char>(charcnt ? (i * 4) % charcnt : 0)); }
+  for (size_t i = 0; i < charcnt; ++i) o.push_back((i % 4) == 3 ? '\0' : static_cast<char>('A' + (i % 4)));
+  for (size_t i = 0; i < leapcnt; ++i) { o.append(tl, '\0'); o.append(4, '\0'); }
+  o.append(isstd, '\0');
+  o.append(isut, '\0');
+  return o;
+}
+
+static void gen_degenerate(bool thorough, size_t cap, Sel& sel, const Emit& emit) {
+  const Dev nodev;
+  struct H1 { size_t timecnt, typecnt, charcnt, leapcnt, isstd, isut; const char* name; };
+  const H1 v1s[] = {{0, 1, 1, 0, 0, 0, "stub"}, {0, 0, 0, 0, 0, 0, "zero"}, {0, 1, 1, 1, 0, 0, "leap"}, {0, 1, 1, 0, 2, 0, "isstd-mismatch"}, {2, 2, 4, 0, 2, 2, "full"}};
+  const size_t tcs[] = {0, 1, 2}, tys[] = {0, 1, 2, 255, 256, 257}, ccs[] = {0, 1, 4, 8};
+  const char* foots[] = {"", "EST5", "EST5EDT,M3.2.0,M11.1.0", "BST-1"};
+  for (const H1& a : v1s) for (size_t tc : tcs) for (size_t ty : tys) for (size_t cc : ccs) for (int isx = 0; isx < 3; ++isx) for (size_t lc = 0; lc < 2; ++lc) for (int im = 0; im < 3; ++im) {
+    if (!thorough && im == 1 && ty > 2) continue;
+    const size_t ind = isx == 0 ? 0 : isx == 1 ? ty : ty + 1;
+    for (const char* f : foots) {
+      long long me_;
+      if (!sel.take(&me_)) continue;
+      std::string m = degenerate_block(4, '2', a.timecnt, a.typecnt, a.charcnt, a.leapcnt, a.isstd, a.isut, 0) + degenerate_block(8, '2', tc, ty, cc, lc, ind, ind, im) + "\n" + f + "\n";
+      if (declared_len(m) > cap) continue;
+      emit(me_, std::string("degenerate:v1=") + a.name + ",timecnt=" + std::to_string(tc) + ",typecnt=" + std::to_string(ty) + ",charcnt=" + std::to_string(cc) + ",ind=" + std::to_string(ind) + ",leap=" + std::to_string(lc) + ",idx=" + std::to_string(im) + ",footer=" + f + ":synthetic", m, nodev);
+    }
+    // and as a version-1 file (single block)
+    long long me_;
+    if (sel.take(&me_)) {
+      std::string m = degenerate_block(4, '\0', tc, ty, cc, lc, ind, ind, im);
+      emit(me_, std::string("degenerate-v1:timecnt=") + std::to_string(tc) + ",typecnt=" + std::to_string(ty) + ",charcnt=" + std::to_string(cc) + ",ind=" + std::to_string(ind) + ",leap=" + std::to_string(lc) + ",idx=" + std::to_string(im) + ":synthetic", m, nodev);
+    }
+  }
+}
+
 // typecnt-heavy synthetic seeds (many types, all DST, etc.) that no shipped file resembles
 static std::vector<Seed> synthetic_seeds(bool thorough) {
   std::vector<Seed> out;
@@ -444,7 +487,9 @@ int main(int argc, char** argv) {
   if (a.has("--case")) {
     const long long want = atoll(a.get("--case").c_str());
     Sel sel; sel.only = want;
-    for (auto& sd : seeds) gen_seed(sd, seeds, footers, a.thorough(), cap, sel, [&](long long idx, const std::string& d, const std::string& b, const Dev& dv) { printf("case %lld: %s (%zu bytes) %s\n", idx, d.c_str(), b.size(), facts_of(b).c_str()); run_case(idx, d, b, dv, total); });
+    auto one = [&](long long idx, const std::string& d, const std::string& b, const Dev& dv) { printf("case %lld: %s (%zu bytes) %s\n", idx, d.c_str(), b.size(), facts_of(b).c_str()); run_case(idx, d, b, dv, total); };
+    for (auto& sd : seeds) gen_seed(sd, seeds, footers, a.thorough(), cap, sel, one);
+    gen_degenerate(a.thorough(), cap, sel, one);
     return hz::finish(a, total);
   }
   const int nshards = 256;
@@ -458,6 +503,10 @@ int main(int argc, char** argv) {
         run_case(me, d, b, dv, r);
       });
     }
+    gen_degenerate(a.thorough(), cap, sel, [&](long long me, const std::string& d, const std::string& b, const Dev& dv) {
+      hz::begin_case(me, d + " " + facts_of(b));
+      run_case(me, d, b, dv, r);
+    });
     if (ctl.shard == 0) r.counters["cases_total"] = sel.next;
   }, &total, [&](long long cid, const std::string&) -> std::vector<std::string> { return {"--case", std::to_string(cid)}; });
   total.sample("{\"case\":\"time:235=9223372036854775807:America/New_York\",\"meaning\":\"last 8-byte transition time of the seed set to INT64_MAX\"}");
